@@ -169,6 +169,15 @@ func drawC06(t *rapid.T) C06Case {
 			j.Directives = append(j.Directives, ref.Directive{Kind: ref.KPrice, Date: d, Com: a, Target: b, Price: gen.DrawPrice(t)})
 		}
 	}
+	damaged := false
+	if !wide && rapid.IntRange(0, 5).Draw(t, "damaged") == 0 {
+		// a journal that is rejected somewhere in the middle: what a command prints before it fails must not
+		// depend on how far the concurrent stages got
+		lo, hi, _ := gen.DatesOf(j)
+		day := lo + ref.Day(rapid.IntRange(0, int(hi-lo)).Draw(t, "faultDay"))
+		j.Directives = append(j.Directives, ref.Directive{Kind: ref.KAssert, Date: day, Balances: []ref.Balance{{Account: j.Accounts[0], Qty: "987654321.25", Com: j.Commodities[0]}}})
+		damaged = true
+	}
 	if rapid.Bool().Draw(t, "shuffle") {
 		j.Directives = gen.Shuffle(t, j.Directives)
 	}
@@ -294,6 +303,9 @@ func drawC06(t *rapid.T) C06Case {
 	c.Ties = c06Ties(j, tree, c.Class, valued)
 	if wide {
 		c.Ties = append(c.Ties, "tie:many-new-names-in-several-files")
+	}
+	if damaged {
+		c.Ties = append(c.Ties, "tie:failure-mid-pipeline")
 	}
 	return c
 }
